@@ -225,7 +225,7 @@ func c16Enum(thorough bool) mc.Enum {
 		}
 	}
 	// (e) a live name that its owner has put on the marketplace (or that carries open bids) is still only its owner's to register
-	for _, prep := range []string{"listed", "bid-on", "listed+bid-on"} {
+	for _, prep := range []string{"listed", "bid-on", "listed+bid-on", "primary-of-B", "handed-to-B"} {
 		for _, who := range []string{"B", "A"} {
 			for _, nm := range []string{"live.jkl", "soon.jkl"} {
 				prep, who, nm := prep, who, nm
@@ -233,6 +233,17 @@ func c16Enum(thorough bool) mc.Enum {
 					w := env.W()
 					if strings.Contains(prep, "listed") {
 						mustOK(env.Deliver(rnstypes.NewMsgList(w.A("A").Bech, nm, sdk.NewInt64Coin("ujkl", 5))), "List")
+					}
+					if prep == "primary-of-B" { // B points its primary name at A's live name (the chain lets anybody do that)
+						mp := rnstypes.NewMsgMakePrimary(nm)
+						mp.Creator = w.A("B").Bech
+						mustOK(env.Deliver(mp), "MakePrimary")
+					}
+					if prep == "handed-to-B" { // A makes the name its primary name, then transfers it to B: A's pointer stays behind
+						mp := rnstypes.NewMsgMakePrimary(nm)
+						mp.Creator = w.A("A").Bech
+						mustOK(env.Deliver(mp), "MakePrimary")
+						mustOK(env.Deliver(rnstypes.NewMsgTransfer(w.A("A").Bech, nm, w.A("B").Bech)), "Transfer")
 					}
 					if strings.Contains(prep, "bid-on") {
 						mustOK(env.Deliver(rnstypes.NewMsgBid(w.A("B").Bech, nm, sdk.NewInt64Coin("ujkl", 7))), "Bid")
@@ -323,7 +334,7 @@ func c16Enum(thorough bool) mc.Enum {
 func init() {
 	CaseReplayers["C16/register"] = func(r *mc.Run, c string) { r.ReplayCase(c16Enum(true), c) }
 	Props["C16"] = Prop{Level: "exploration", Run: func(r *mc.Run, tier string) {
-		r.Rules = append(r.Rules, "full product: names of length 1..6 x {jkl,ibc} x case/space variants (and 12 labels that contain the letters of a top-level domain) x years {1,2,5} x registrant {A,B,under-funded P}; every genesis-seeded name (expired long ago / a year ago / expiring in 3 blocks / live) x block offset 0..4 x {owner, other} x years; register-twice sequences; a starter name from the free-name message extended by its owner or tried by another account inside its free term. Non-trivial = accepted registrations; distinct by outcome class (accepted|rejected / fresh|live|boundary|expired x own|other)")
+		r.Rules = append(r.Rules, "full product: names of length 1..6 x {jkl,ibc} x case/space variants (and 12 labels that contain the letters of a top-level domain) x years {1,2,5} x registrant {A,B,under-funded P}; every genesis-seeded name (expired long ago / a year ago / expiring in 3 blocks / live) x block offset 0..4 x {owner, other} x years; register-twice sequences; a live name another account has pointed its primary name at; a starter name from the free-name message extended by its owner or tried by another account inside its free term. Non-trivial = accepted registrations; distinct by outcome class (accepted|rejected / fresh|live|boundary|expired x own|other)")
 		r.Assumptions = append(r.Assumptions, "yearly price table frozen in the harness (10M ujkl jkl, 50M ibc; x24,12,6,3,1 by length)", "height == Expires unspecified", "chain starts at height 12,000,000 so that multi-year expiries lie in the past")
 		r.AddEnum(c16Enum(true), workers(), time.Time{})
 	}}
